@@ -46,8 +46,11 @@ LEVEL_TEXT = ("proof.  GENERAL (all degrees, knot vectors, multiplicities, order
               "control points represent the k-th derivative: iterated Abel summation).  The hodograph OBJECTS (Proofs/HodographObj.v, [G]): "
               "derivative_curve returns a valid curve of degree p-1 on U[1:-1] whose evaluated point is the first-derivative row of the evaluator and "
               "the true derivative of the evaluated point of the input; derivative_surface returns three valid surfaces whose points are S_u, S_v, S_uv "
-              "= the true (mixed) partials, on the half-open domain.  ONLY TIED BY CORRESPONDENCE against the exact piecewise-polynomial "
-              "Fraction oracle: hodographs at the closed right end, rational inputs of the constructors (returned unchanged); volumes have no "
+              "= the true (mixed) partials, on the half-open domain; at the CLOSED right end / edges they are the left (one-sided) derivatives and "
+              "equal the evaluator rows (Proofs/HodographEnd.v: identities between polynomial pieces, valid for every real parameter); the k-fold "
+              "hodograph (k <= p) evaluates to the k-th derivative row of the original curve; operations.normal / tangent of a non-rational surface "
+              "are the cross product / the points of the hodograph surfaces.  ONLY TIED BY CORRESPONDENCE against the exact piecewise-polynomial "
+              "Fraction oracle: rational inputs of the constructors (returned unchanged); volumes have no "
               "derivative API.  Three input classes of the hodograph constructors are recorded known findings (degree-1 shapes, knot of multiplicity = degree)")
 LEVEL_NOTE = ("theorems are about the hand-written Gallina model (Model/Derivs.v, Model/Basis.v), tied to evaluators.py/helpers.py/operations.py "
               "by the sampled correspondence check; the oracle differentiates the exact polynomial pieces (interpolated from exact Cox-de Boor "
@@ -434,7 +437,9 @@ class DerivCpts(Family):
             if i % 2 == 0:
                 c = gen_curve(rng, rational=rng.random() < 0.3)
                 p, U = c["p"], c["U"]
-                m = max_interior_mult(U, p) if c["kind"] != "unclamped" else 2
+                # admissible order: no A3.3 denominator U[i+p+1] - U[i+k] vanishes.  Unclamped vectors (either kind): every knot
+                # counts, not only those strictly inside the clamped pattern
+                m = max_interior_mult(U, p) if c["kind"] not in ("unclamped", "unclamped01") else max(2, max(U.count(k) for k in U))
                 c["order"] = rng.randint(0, max(0, min(p, p + 1 - m)))
                 nn = len(c["P"])
                 r1 = rng.randint(0, nn - 1 - c["order"]) if rng.random() < 0.5 else 0
